@@ -172,6 +172,8 @@ def op_cases(draw, ops=None, dtypes=None, constraint=None, unsupported_rate=0.0,
     elif op == "mse_loss":
         c.update(shape=b + [draw(st.integers(1, 6))], reduction=draw(st.sampled_from(["mean", "sum", "default"])))
     c["seedA"] = draw(seeds); c["seedB"] = draw(seeds); c["seedG"] = draw(seeds)
+    # the second data draw uses its own value profile: a scale that depends on magnitudes / sparsity is exposed
+    c["profB"] = draw(st.sampled_from(profiles))
     if unsupported_rate and op in UNSUPPORTED and draw(st.floats(0, 1)) < unsupported_rate:
         c["unsupported"] = list(draw(st.sampled_from(UNSUPPORTED[op])))
     return c
@@ -194,8 +196,8 @@ def ckw(c) -> dict:
     return {} if c.get("constraint", "default") == "default" else {"constraint": c["constraint"]}
 
 
-def build(c: dict, seed: int, unsupported: Optional[Tuple[str, Any]] = None) -> Built:
-    op = c["op"]; pr = c["prof"]; dt = DT[c["dtype"]]
+def build(c: dict, seed: int, unsupported: Optional[Tuple[str, Any]] = None, prof: Optional[str] = None) -> Built:
+    op = c["op"]; pr = prof or c["prof"]; dt = DT[c["dtype"]]
     T = lambda shape, k=0, prof=None: rt(shape, seed + k, prof or pr, dt)  # noqa: E731
     ukw: Dict[str, Any] = {}
     if unsupported is not None:
@@ -402,7 +404,8 @@ def probe(c: dict, want_bwd: bool = True, seeds: Optional[List[int]] = None, ups
     csum = sum_reduced(c)
     per_seed_g: List[Dict[str, float]] = []
     for si, seed in enumerate(seeds):
-        bu = build(c, seed)
+        prof_i = c.get("profB") if si == 1 else None
+        bu = build(c, seed, prof=prof_i)
         tu = [t.clone().requires_grad_() for t in bu.ts]
         tr = [t.clone().requires_grad_() for t in bu.ts]
         snap = [t.detach().clone() for t in tu]
@@ -442,7 +445,7 @@ def probe(c: dict, want_bwd: bool = True, seeds: Optional[List[int]] = None, ups
         P.s_fwd.append(s)
         if want_bwd:
             if csum is not None:
-                yr = build(csum, seed).r(*tr)
+                yr = build(csum, seed, prof=prof_i).r(*tr)
             gs: Dict[str, float] = {}
             for gi in range(upstream):
                 gup = rt(tuple(yu.shape), c["seedG"], "normal", yu.dtype, salt=1 + 2 * gi + si)
@@ -477,7 +480,8 @@ def probe(c: dict, want_bwd: bool = True, seeds: Optional[List[int]] = None, ups
                         min_rms = x64.pow(2).mean(dims_).sqrt().min().item()
                         wmax = tr[1].detach().abs().max().item() if len(tr) > 1 else 1.0
                         nat = gup.abs().max().item() * wmax / max(min_rms, 1e-300)
-                        if b_.detach().abs().max().item() < 1e-2 * nat:
+                        eps_eff = {"float64": 1e-7, "float32": 1e-7, "bfloat16": 2.0**-8, "float16": 2.0**-11}[c["dtype"]]
+                        if b_.detach().to(D).abs().max().item() < max(1e-2, 4 * eps_eff / tol[3]) * nat:
                             continue
                     P.grads_fit += 1
                     if not ff[1] <= tol[3]:
